@@ -69,7 +69,7 @@ def run(ctx):
         s = api_summary(ctx, sn, 'creg_finish')
         w = where_of(s)
         for p in s.ok_paths:
-            env = fields(fields(fields(p.payload).get('message')).get('envelope'))
+            env = fields(msg_envelope(fields(p.payload).get('message')))
             macs = [v for v in env.values() if app_args(v, 'Mac')]
             nonce = None
             if macs:
